@@ -1,10 +1,7 @@
-import SnaxVerif.Drv.C19
+import SnaxVerif.Drv.All
 /-! JSON-lines driver: one request `{"fn": name, "args": …}` per line, one answer per line
 (`{"ok": …}` or `{"err": …}`), flushed per line. -/
 open Lean SnaxVerif.Drv
-
-def allHandlers : List (String × Handler) :=
-  C19.handlers
 
 def answer (line : String) : Json :=
   match Json.parse line with
